@@ -34,12 +34,13 @@ def item_run(args):
            'split': cfg['split_jobs'], 'exitcodes': out['worker_exitcodes']}
     if idx < 3:
         res['sample'] = {'cfg': cfg, 'schedule_prefix': log[:40], 'outcome': out['outcome'], 'exc_type': out.get('exc_type')}
-    if v is not None and phase != 'f5':
+    if v is not None:
         res['viol'] = {'class': v[0], 'message': v[1], 'cfg': cfg, 'decisions': log, 'trace_digest': out['trace_digest']}
     if phase == 'f5':
         res['f5'] = {'outcome': out['outcome'], 'fault': cfg['faults'][0]['kind'] if cfg['faults'] else None,
                      'absorbed': out['outcome'] == 'returned' and bool(out['fired']) and cache is not None and
-                     (isinstance(ref, BaseException) or c17.compare_caches(cfg, ref, cache, True) is not None)}
+                     (isinstance(ref, BaseException) or c17.compare_caches(cfg, ref, cache, True) is not None),
+                     'split': cfg['split_jobs'] > 1}
     return res
 
 
@@ -120,6 +121,21 @@ def item_merge(args):
             if v:
                 res['viols'].append({'class': v[0], 'message': v[1],
                                      'merge': {'root': root, 'k': k, 'rep': rep, 'pattern': pattern, 'conflict_at': [j, pos]}})
+    # pieces from two different split settings
+    k2 = s.choice([x for x in (1, 2, 3, 4, 5, 6) if x != k])
+    partsB, _, errB = c17.build_split(cfg, k2, s)
+    if not errB:
+        ms = R.derive(root, 'mergemixed', k, rep)
+        for t in range(40):
+            pick = [('A', j) for j in range(k) if ms.chance(0.7)] + [('B', j) for j in range(k2) if ms.chance(0.6)]
+            if not pick:
+                continue
+            conflict = (ms.randrange(len(pick)), ms.randrange(5)) if ms.chance(0.4) else None
+            v = c17.merge_mixed_case(parts, partsB, whole, pick, os_, conflict)
+            res['cases'] += 1
+            res['mixed'] = res.get('mixed', 0) + 1
+            if v:
+                res['viols'].append({'class': v[0], 'message': v[1], 'merge': {'root': root, 'k': k, 'rep': rep, 'mixed': t}})
     if rep == 0:
         res['sample'] = {'k': k, 'grid': len(whole.gammas), 'patterns': res['patterns'], 'conflict_cases': res['conflicts']}
     return res
@@ -294,9 +310,9 @@ def run_replay(rec):
 
 TIERS = {
     'quick': dict(sched=2500, fault=1800, enum=True, merge_k=[1, 2, 3, 4, 5, 6], merge_reps={1: 2, 2: 2, 3: 2, 4: 2, 5: 1, 6: 1},
-                  quad=220, f5=40, real_frac=0.03, budget=420),
+                  quad=220, f5=160, real_frac=0.03, budget=420),
     'thorough': dict(sched=10 ** 9, fault=10 ** 9, enum=True, merge_k=[1, 2, 3, 4, 5, 6], merge_reps={1: 6, 2: 6, 3: 6, 4: 6, 5: 4, 6: 3},
-                     quad=10 ** 9, f5=400, real_frac=0.05, budget=1200),
+                     quad=10 ** 9, f5=1500, real_frac=0.05, budget=1200),
 }
 
 
@@ -355,7 +371,9 @@ def main(tier, root, budget_s=None, replay=None):
         if 'viol' in r:
             viols.append(r['viol'])
         if 'f5' in r:
-            f5['%s -> %s%s' % (r['f5']['fault'], r['f5']['outcome'], ' (absorbed)' if r['f5']['absorbed'] else '')] += 1
+            f5['%s -> %s%s' % (r['f5']['fault'], r['f5']['outcome'],
+                               ' with the lost entries missing (split job: reported by merge)' if r['f5']['absorbed'] and r['f5']['split'] else
+                               ' (absorbed)' if r['f5']['absorbed'] else '')] += 1
 
     def frac(a, b):
         return time.monotonic() + (t_end - time.monotonic()) * a / b
@@ -371,6 +389,7 @@ def main(tier, root, budget_s=None, replay=None):
         merge_cases += r['cases']
         agg['merge_patterns'] += r['patterns']
         agg['merge_conflict_cases'] += r['conflicts']
+        agg['merge_mixed_split_cases'] += r.get('mixed', 0)
         viols.extend(r['viols'])
         if 'sample' in r and r['k'] in (3,):
             samples.append({'merge': r['sample']})
@@ -457,7 +476,7 @@ def main(tier, root, budget_s=None, replay=None):
         'phases': {k[5:]: v for k, v in agg.items() if k.startswith('runs_')},
         'fault_kinds_fired': dict(faults),
         'outcomes': dict(outcomes),
-        'merge': {'cases': int(merge_cases), 'patterns_enumerated': int(agg['merge_patterns']), 'conflict_cases': int(agg['merge_conflict_cases']),
+        'merge': {'cases': int(merge_cases), 'patterns_enumerated': int(agg['merge_patterns']), 'conflict_cases': int(agg['merge_conflict_cases']), 'mixed_split_setting_cases': int(agg['merge_mixed_split_cases']),
                   'exhaustive_over': 'all 3^k absent/once/twice patterns for k in %s (minus the empty list), per generated grid' % P['merge_k']},
         'enumerated_single_job_faults': len(enum_space()) if P['enum'] else 0,
         'quadrature': {'cases': int(agg['quad_cases']), 'clauses': {k[12:]: v for k, v in agg.items() if k.startswith('quad_clause_')},
@@ -471,7 +490,7 @@ def main(tier, root, budget_s=None, replay=None):
             'runs_with_out_of_order_completion': agg['runs_with_out_of_order_completion'],
             'runs_with_producer_blocked_on_full_queue': agg['runs_with_producer_blocked_on_full_queue'],
             'split_job_runs': agg['split_job_runs'], 'real_model_runs': agg['real_model_runs']},
-        'f5_informational': dict(f5),
+        'f5_dead_worker_outcomes': dict(f5),
         'real_vs_stub': {'real': ['dadi.DFE.Cache1D/Cache2D (constructor, _single_process, _multiple_processes, _worker_sfs, merge, integrate*, mixture*)',
                                   'DFE.Vourlaki_mixture', 'DFE.PDFs (compiled, rebuilt from the tree)', 'Numerics.make_extrap_func', 'Spectrum + its pickler',
                                   'DFE.DemogSelModels in %d runs' % agg['real_model_runs']],
